@@ -6,8 +6,8 @@ COMPONENTS = ["xdsparse"]
 T4 = []
 PROOF_MODULES = ["GrpcProofs.Properties.C45"]
 THEOREMS = ["GrpcProofs.C45." + t for t in (
-    "eds_accept_implies_inv", "eds_priorities_contiguous", "eds_reject_iff_error_branch_partial",
-    "rds_weighted_clusters_positive_total", "model_deterministic")]
+    "eds_accept_implies_inv", "eds_priorities_contiguous", "eds_update_reflects_input",
+    "rds_weighted_clusters_positive_total")]
 DESIGN_REF = "DESIGN.md section 8, C45"
 TECHNIQUE = ("Lean 4 port of parseEDSRespProto/parseEndpoints/parseDropPolicy on a mirror of the ClusterLoadAssignment proto + "
              "fold-invariant proof that every accepted update satisfies the EDS invariants; T1 differential tie on real v3 protos "
@@ -80,7 +80,7 @@ def gen_eds(rng):
     nd = rng.choice([0, 0, 1, 2, 3])
     toks = [str(x) for x in env] + [hx(name), str(nd)]
     for _ in range(nd):
-        toks += [hx(rng.choice(["", "lb", "throttle"])), str(rng.choice([0, 1, 50, 100, 999999, M32])), str(rng.choice([0, 1, 2, 2, 3, 9]))]
+        toks += [hx(rng.choice(["", "lb", "throttle"])), str(rng.choice([0, 1, 50, 100, 999999, M32])), str(rng.choice([0, 1, 2] * 8 + [3, 9]))]
     nl = rng.choice([0, 1, 2, 2, 3, 4, 5])
     nprio = rng.randrange(1, 4)
     toks.append(str(nl))
@@ -128,7 +128,7 @@ def directed_eds():
 
 
 def gen(rng, tier):
-    n = {"quick": 6000, "thorough": 150000, "search": 60000}[tier]
+    n = {"quick": 4000, "thorough": 120000, "search": 40000}[tier]
     ops = list(directed_eds())
     ops += [gen_eds(rng) for _ in range(n)]
     # raw bytes
@@ -138,9 +138,26 @@ def gen(rng, tier):
         ln = rng.choice([0, 1, 2, 3, 5, 8, 13, 40])
         bs = bytes(rng.randrange(256) if rng.random() < 0.5 else rng.choice([0x0a, 0x12, 0x1a, 0x22, 0x08, 0x10, 0x01, 0x02, 0x7f, 0x80, 0xff]) for _ in range(ln))
         ops.append("raw %s %s" % (kind, bs.hex() or "-"))
-    chunk = 4000
-    for i in range(0, len(ops), chunk):
-        yield Case("xdsparse", ops[i:i + chunk], "batch-%d" % (i // chunk))
+    # seeded structurally valid RDS / CDS / LDS protos, 0..3 byte mutations
+    ngen = n // 2
+    for _ in range(ngen):
+        kind = rng.choice(["rds", "rds", "cds", "lds", "lds"])
+        nmut = rng.choice([0, 0, 0, 0, 1, 1, 2, 3])
+        ops.append("gen %s %d %d %d" % (kind, rng.randrange(1, 2**40), rng.randrange(1, 4), nmut))
+    # RDS weighted clusters
+    W = [0, 0, 1, 1, 2, 3, 50, 2**31, 2**31 - 1, M32, M32 - 1, M32 - 2]
+    ops.append("wc -")
+    for _ in range(n // 10):
+        ops.append("wc " + ",".join(str(rng.choice(W)) for _ in range(rng.randrange(1, 6))))
+    # cds ops travel in small cases: the check reports the first violation of a case, so a known
+    # finding (F19) must not hide a different violation behind it
+    cds = [o for o in ops if o.startswith("gen cds")]
+    rest = [o for o in ops if not o.startswith("gen cds")]
+    for i, o in enumerate(cds):
+        yield Case("xdsparse", [o], "cds-%d" % i)
+    chunk = 2000
+    for i in range(0, len(rest), chunk):
+        yield Case("xdsparse", rest[i:i + chunk], "batch-%d" % (i // chunk))
 
 
 UNIT = "op"
